@@ -20,6 +20,7 @@ import (
 	"github.com/bianjieai/tibc-go/modules/tibc/core/exported"
 	ibctm "github.com/bianjieai/tibc-go/modules/tibc/light-clients/07-tendermint/types"
 	bsctypes "github.com/bianjieai/tibc-go/modules/tibc/light-clients/08-bsc/types"
+	ethtypes "github.com/bianjieai/tibc-go/modules/tibc/light-clients/09-eth/types"
 
 	"verifharness/sim"
 	"verifharness/world"
@@ -151,12 +152,23 @@ func checkC15(c C15Case, col *Collector) outcome {
 			b.CommitEmpty(1) // a genuinely newer counterparty block, so the upgraded client stays updatable
 			cs, cons = tmClient(uint64(b.Height))
 			sameType := true
-			if mod(op.Payload, 4) == 1 {
-				cs = &bsctypes.ClientState{Header: bsctypes.Header{Height: clienttypes.NewHeight(0, 200), ParentHash: bytes.Repeat([]byte{1}, 32), UncleHash: gethtypes.EmptyUncleHash.Bytes(),
-					Coinbase: bytes.Repeat([]byte{1}, 20), Root: bytes.Repeat([]byte{1}, 32), TxHash: bytes.Repeat([]byte{1}, 32), ReceiptHash: bytes.Repeat([]byte{1}, 32),
-					Bloom: bytes.Repeat([]byte{0}, 256), Difficulty: 2, GasLimit: 1, Extra: bytes.Repeat([]byte{0}, 97), MixDigest: bytes.Repeat([]byte{0}, 32), Nonce: bytes.Repeat([]byte{0}, 8)},
-					ChainId: 56, Epoch: 200, BlockInteval: 3, TrustingPeriod: 100}
+			tmCons := cons
+			bscHeader := bsctypes.Header{Height: clienttypes.NewHeight(0, 200), ParentHash: bytes.Repeat([]byte{1}, 32), UncleHash: gethtypes.EmptyUncleHash.Bytes(),
+				Coinbase: bytes.Repeat([]byte{1}, 20), Root: bytes.Repeat([]byte{1}, 32), TxHash: bytes.Repeat([]byte{1}, 32), ReceiptHash: bytes.Repeat([]byte{1}, 32),
+				Bloom: bytes.Repeat([]byte{0}, 256), Difficulty: 2, GasLimit: 1, Extra: bytes.Repeat([]byte{0}, 97), MixDigest: bytes.Repeat([]byte{0}, 32), Nonce: bytes.Repeat([]byte{0}, 8)}
+			switch mod(op.Payload, 4) {
+			case 1: // a consistent pair of another client type
+				cs = &bsctypes.ClientState{Header: bscHeader, ChainId: 56, Epoch: 200, BlockInteval: 3, TrustingPeriod: 100}
 				cons = &bsctypes.ConsensusState{Timestamp: 1, Number: clienttypes.NewHeight(0, 200), Root: []byte{1}}
+				sameType = false
+			case 2: // another type's client state paired with a consensus state of the existing type
+				cs = &bsctypes.ClientState{Header: bscHeader, ChainId: 56, Epoch: 200, BlockInteval: 3, TrustingPeriod: 100}
+				cons = tmCons
+				sameType = false
+			case 3:
+				cs = &ethtypes.ClientState{Header: ethtypes.Header{Height: clienttypes.NewHeight(0, 200), Difficulty: "2", BaseFee: "7", GasLimit: 8_000_000, Extra: []byte("x")},
+					ChainId: 1, ContractAddress: []byte{1}, TrustingPeriod: 100}
+				cons = tmCons
 				sameType = false
 			}
 			acs, _ := clienttypes.PackClientState(cs)
